@@ -820,18 +820,82 @@ def _ordered_hook(extra=None):
     return hook
 
 
-def _square_shapes(extra):
-    """every matrix of the regime is n x n (E, I, I2 and what is formed from them when no input matrix is given)"""
-    n = F.sym("n")
+DIMS = ("n", "m", "i", "r")
+
+
+def _int_expr(v):
+    """an integer-valued expression in array dimensions: integer coefficients, no atoms but the dimension symbols"""
+    try:
+        if not isinstance(v, F.Rat) or is_unknown(v) or not v.d.is_const() or v.d.const_value() != 1:
+            return False
+        for mono, c in v.n.t.items():
+            if c.denominator != 1:
+                return False
+            for a_, e_ in mono:
+                d_ = F.atom_desc(a_)
+                if d_[0] != "s" or d_[1] not in DIMS or e_ < 0:
+                    return False
+        return True
+    except Exception:  # noqa
+        return False
+
+
+def _divisible(v, k):
+    return all(c % k == 0 for c in v.n.t.values())
+
+
+def _int_hook(extra=None):
+    """integer arithmetic on array dimensions, decided on values: with an even dimension written 2 m, `n // 2`, `n >> 1`, `divmod(n, 2)[0]`
+    and `int(n / 2)` are all m, and `n & 1`, `n % 2` are 0.  True division of integers is a float (kept apart: it is not an index)."""
 
     def hook(it, name, pos, kw, node):
-        if name == "getattr" and pos[1] == "shape" and isinstance(pos[0], F.Rat) and not pos[0].is_const():
-            return (n, n)
-        if name == "len" and len(pos) == 1 and isinstance(pos[0], F.Rat) and not pos[0].is_const():
-            return n
-        return extra(it, name, pos, kw, node)
+        if name.startswith("binop:") and len(pos) == 2 and _int_expr(pos[0]) and _int_expr(pos[1]):
+            a, b = pos
+            op = name[6:]
+            if op == "Div" and not (a.is_const() and b.is_const()):
+                return F.fn("op:TrueDiv", a, b)
+            if b.is_const() and b.const_value() > 0 and not a.is_const():
+                k = int(b.const_value())
+                if op == "FloorDiv" and _divisible(a, k):
+                    return a / k
+                if op == "Mod" and _divisible(a, k):
+                    return F.const(0)
+                if op == "BitAnd" and k & (k + 1) == 0 and _divisible(a, k + 1):        # a & (2^j - 1) with 2^j | a
+                    return F.const(0)
+                if op == "RShift" and _divisible(a, 2 ** k):
+                    return a / (2 ** k)
+                if op == "LShift":
+                    return a * (2 ** k)
+        if name in ("int", "np.int64", "np.intp", "operator.index") and len(pos) == 1 and isinstance(pos[0], F.Rat):
+            if _int_expr(pos[0]):
+                return pos[0]
+            p = fn_parts(pos[0])
+            if p is not None and p[0] == "op:TrueDiv" and p[1][1].is_const() and p[1][1].const_value() > 0 and _divisible(p[1][0], int(p[1][1].const_value())):
+                return p[1][0] / p[1][1]
+        if extra is not None:
+            return extra(it, name, pos, kw, node)
+        return NotImplemented
 
     return hook
+
+
+def _square_shapes(extra, n):
+    """every matrix of the regime is n x n (E, I, I2 and what is formed from them when no input matrix is given); a part of one has the
+    shape its index selects"""
+
+    def shape_of(v):
+        return (n, n) if isinstance(v, F.Rat) and not v.is_const() and I.fn_parts(v) != ("idx",) else None
+
+    def hook(it, name, pos, kw, node):
+        if name == "getattr" and pos[1] in ("shape", "ndim") and isinstance(pos[0], F.Rat) and not pos[0].is_const():
+            sh = it.shape(pos[0]) or (n, n)
+            return sh if pos[1] == "shape" else F.const(len(sh))
+        if name == "len" and len(pos) == 1 and isinstance(pos[0], F.Rat) and not pos[0].is_const():
+            sh = it.shape(pos[0]) or (n, n)
+            return sh[0] if sh else NotImplemented
+        return extra(it, name, pos, kw, node)
+
+    return hook, shape_of
 
 
 class Converge:
@@ -877,14 +941,19 @@ def r4_siblings(ctx):
         fn = ctx.src.func(EXPM, q)
         for order in (0, 1):
             for label, Bv, half, shape in regimes:
-                it = Interp(ctx, EXPM, hook=_ordered_hook(_square_shapes(extra) if Bv is None else extra), erase=False)
+                # without an input matrix every matrix is n x n; the `half` option is defined for an even n, written 2 m
+                nval = 2 * F.sym("m") if half else F.sym("n")
+                sq_hook, sq_shape = _square_shapes(extra, nval)
+                it = Interp(ctx, EXPM, hook=_ordered_hook(_int_hook(sq_hook if Bv is None else extra)), erase=False)
+                if Bv is None:
+                    it.shape_of = sq_shape
                 ret = it.call(q, [A, h, F.const(order), Bv, half])
                 if _aborted(ctx, f"{q}(order={order}; {label}) returns E, P, Q", fn, ret):
                     continue
                 if not isinstance(ret, tuple) or len(ret) != 3:
                     ctx.error(f"{q}(order={order}; {label}): return", fn, repr(ret)[:300])
                     continue
-                env = {"I": Isym, "I2": I2sym, "h": h, "B": B, "E": Esym, "n": F.sym("n")}
+                env = {"I": Isym, "I2": I2sym, "h": h, "B": B, "E": Esym, "n": nval}
                 wp = it.expr(shape.format(want[order][0]), env)
                 wq = it.expr(shape.format(want[order][1]), env) if order == 1 else F.const(0)
                 src = _last(it.calls, "expmint", "expmint_pow")
